@@ -220,6 +220,23 @@ def h_text(ctx, what):
   ctx.witness('done')
 
 
+def h_utf8(ctx, n):
+  from symx import core
+  rnd = random.Random(100 + n)
+  b = ctx.bytes('b', n)
+  if not ctx.sym: return
+  f = core._utf8_valid(list(b))
+  special = [0xc0, 0xc1, 0xc2, 0xdf, 0xe0, 0xed, 0xef, 0xf0, 0xf4, 0xf5, 0x80, 0xbf, 0x7f, 0x9f, 0xa0, 0x90, 0x8f, 0x00, 0xff]
+  for j in range(60):
+    raw = bytes(rnd.choice([rnd.randrange(256), rnd.choice(special)]) for _ in range(n))
+    try:
+      raw.decode('utf-8'); want = True
+    except UnicodeDecodeError:
+      want = False
+    ctx.check('UTF-8 well-formedness predicate pinned to bytes.decode', ctx.Implies(ctx.Eq(b, raw), ctx.Iff(f, want)))
+  ctx.witness('done')
+
+
 def obligations(tier):
   fmts, skipped = collect_formats()
   BOUNDS[tier] = dict(struct_formats=len(fmts), skipped_formats=skipped)
@@ -228,6 +245,7 @@ def obligations(tier):
     Obligation('S2_socket', h_socket, [dict()], witnesses=('done',), desc='byte-order helpers, inet_ntoa'),
     Obligation('S3_array', h_array, [dict(n=n) for n in (0, 2, 6, 7)], witnesses=('done',), desc="array('H'|'B', bytes)"),
     Obligation('S4_intops', h_intops, [dict(signed=0), dict(signed=1)], witnesses=('done',), desc='bit-vector encoding of Python int operators'),
+    Obligation('S6_utf8', h_utf8, [dict(n=n) for n in (1, 2, 3, 4, 6)], witnesses=('done',), desc='UTF-8 well-formedness predicate used by SymBytes.decode'),
     Obligation('S5_text', h_text, [dict(what=w) for w in ('d', 'str', 'x', '02x', 'hex', '08x', 'i', 'fmt')], witnesses=('done',), max_decisions=20000,
                desc='numeral rendering and parsing'),
   ]
